@@ -216,6 +216,7 @@ type webRec struct {
 	createCalls   int
 	created       []godi.Scope
 	createErr     error
+	onAppScope    bool // the incoming context carried an application scope of the same provider
 	mwSeen        []godi.Scope
 	mwOrder       []int
 	handlerRan    int
@@ -266,27 +267,6 @@ func (r *webRun) rec() *webRec {
 	return r.cur[t.ID]
 }
 
-// countingProvider records CreateScope calls per request.
-type countingProvider struct {
-	godi.Provider
-	run *webRun
-}
-
-//go:norace
-func (p *countingProvider) CreateScope(ctx context.Context) (godi.Scope, error) {
-	rec := p.run.rec()
-	s, err := p.Provider.CreateScope(ctx)
-	if rec != nil {
-		rec.createCalls++
-		if err == nil {
-			rec.created = append(rec.created, s)
-		} else {
-			rec.createErr = err
-		}
-	}
-	return s, err
-}
-
 var errMw = errors.New("injected middleware error")
 var errHandler = errors.New("injected handler error")
 var errScopeInit = errors.New("injected scope initializer failure")
@@ -317,10 +297,18 @@ func (r *webRun) buildProvider() (godi.Provider, error) {
 		}
 		return &webController{scope: s, svc: svc, run: r}
 	})
+	// runs once per scope creation (C02): this is how scope creations are attributed to requests
 	c.AddScoped(func(s godi.Scope) error {
-		if rec := r.rec(); rec != nil && rec.req.Exit == exitScopeCreateFail {
+		rec := r.rec()
+		if rec == nil {
+			return nil
+		}
+		rec.createCalls++
+		if rec.req.Exit == exitScopeCreateFail {
+			rec.createErr = errScopeInit
 			return errScopeInit
 		}
+		rec.created = append(rec.created, s)
 		return nil
 	})
 	return c.Build()
@@ -429,7 +417,7 @@ func (a *stdApp) serve(rec *webRec) {
 
 func (r *webRun) stdParts(isChi bool) (scopeMw func(http.Handler) http.Handler, plain, handle, noscope, unreg http.Handler, recoverMw func(http.Handler) http.Handler) {
 	c := r.c
-	cp := &countingProvider{Provider: r.prov, run: r}
+	cp := r.prov // the provider itself: a wrapper would hide comparisons such as scope.Provider() == provider
 	errH := func(w http.ResponseWriter, rq *http.Request, err error) {
 		if rec := r.rec(); rec != nil {
 			rec.errHandler++
@@ -598,7 +586,7 @@ func (r *webRun) newChiApp() webApp {
 func (r *webRun) newGinApp() webApp {
 	c := r.c
 	gin.SetMode(gin.ReleaseMode)
-	cp := &countingProvider{Provider: r.prov, run: r}
+	cp := r.prov // the provider itself: a wrapper would hide comparisons such as scope.Provider() == provider
 	var opts []godigin.Option
 	if c.CustomErr {
 		opts = append(opts, godigin.WithErrorHandler(func(g *gin.Context, err error) {
@@ -699,7 +687,7 @@ func (r *webRun) newGinApp() webApp {
 
 func (r *webRun) newEchoApp() webApp {
 	c := r.c
-	cp := &countingProvider{Provider: r.prov, run: r}
+	cp := r.prov // the provider itself: a wrapper would hide comparisons such as scope.Provider() == provider
 	var opts []godiecho.Option
 	if c.CustomErr {
 		opts = append(opts, godiecho.WithErrorHandler(func(ec echo.Context, err error) error {
@@ -833,7 +821,7 @@ func (a *fiberApp) serve(rec *webRec) {
 
 func (r *webRun) newFiberApp() webApp {
 	c := r.c
-	cp := &countingProvider{Provider: r.prov, run: r}
+	cp := r.prov // the provider itself: a wrapper would hide comparisons such as scope.Provider() == provider
 	var opts []godifiber.Option
 	if c.CustomErr {
 		opts = append(opts, godifiber.WithErrorHandler(func(fc *fiber.Ctx, err error) error {
@@ -1045,8 +1033,19 @@ func (e *webEngine) exec(c *webCase, tape *Tape) *RunOut {
 
 //go:norace
 func (r *webRun) serveOne(t *simrt.Task, app webApp, rec *webRec) {
+	// every third request arrives on a context that already carries a scope of the same provider
+	// (a server whose base context is an application scope's context): the request must still get
+	// its own fresh scope
+	var appScope godi.Scope
+	var parent context.Context
+	if rec.id%3 == 2 && rec.req.Exit != exitProviderClosed && rec.req.Route != routeNoScope {
+		if as, err := r.prov.CreateScope(nil); err == nil {
+			appScope, parent = as, as.Context()
+			rec.onAppScope = true
+		}
+	}
 	r.cur[t.ID] = rec
-	rec.ctx = r.h.newCtx(nil, ctxKey{rec.id}, rec.id)
+	rec.ctx = r.h.newCtx(parent, ctxKey{rec.id}, rec.id)
 	if rec.req.Exit == exitProviderClosed {
 		r.prov.Close()
 	}
@@ -1069,6 +1068,9 @@ func (r *webRun) serveOne(t *simrt.Task, app webApp, rec *webRec) {
 		rec.afterProbed = true
 	}
 	r.cur[t.ID] = nil
+	if appScope != nil {
+		appScope.Close()
+	}
 }
 
 func (r *webRun) judge(add func(rule, shape, f string, a ...any), out *RunOut) {
@@ -1085,7 +1087,14 @@ func (r *webRun) judge(add func(rule, shape, f string, a ...any), out *RunOut) {
 		}
 		usesScopeMw := rq.Route != routeNoScope
 		// C16.oneScope
-		if usesScopeMw {
+		if rec.onAppScope {
+			out.Reach["web.request-context-already-carries-a-scope"]++
+		}
+		if usesScopeMw && rq.Exit == exitProviderClosed {
+			if rec.createCalls != 0 {
+				add("C16.oneScope", "create-count", "%s: a scope was created on a closed provider", name)
+			}
+		} else if usesScopeMw {
 			if rec.createCalls != 1 {
 				add("C16.oneScope", "create-count", "%s: the scope middleware called CreateScope %d times", name, rec.createCalls)
 			}
